@@ -381,7 +381,7 @@ func (r *c12Run) readAll(queries []string, what string) {
 func TestC12Stateful(t *testing.T) {
 	theT = t
 	col := ev.New("C12", "stateful",
-		"rapid state machine: addRecord/setRecord/deleteRecords (types A, AAAA, CNAME, TXT, SOA; up to 18 values per type; ids 0..17) over registered names a.com, b.com, c.com, s.a.com and sub-names x.a.com, y.x.a.com, xs.a.com, interleaved with registrations (incl. names whose parent already holds records of their sub-names), expiry jumps and re-registration; CNAME targets drawn from the same universe (chains of 0..4 links, cycles, dangling targets); after every step getRecords, getAllRecords (order by type,id) and resolve (with and without trailing dot) for all names and types and the SOA serial of every token are compared with the record model and the reference resolver (<=2 links must succeed, >=4 or a cycle must fail, exactly 3 is set-valued); non-trivial = history with a record of a sub-name stored under an enclosing token and at least one of {resolve through 1-2 links, limit or duplicate refusal, register refused by conflicting records, deletion of existing records}",
+		"rapid state machine: addRecord/setRecord/deleteRecords (types A, AAAA, CNAME, TXT, SOA; up to 18 values per type; ids 0..17) over registered names a.com, b.com, c.com, s.a.com and sub-names x.a.com, y.x.a.com, xs.a.com, interleaved with registrations (incl. names whose parent already holds records of their sub-names), expiry jumps and re-registration, incl. the composite 'a short-lived name expires, a record of its sub-name is added meanwhile, the name is registered again'; CNAME targets drawn from the same universe (chains of 0..4 links, cycles, dangling targets); after every step getRecords, getAllRecords (order by type,id) and resolve (with and without trailing dot) for all names and types and the SOA serial of every token are compared with the record model and the reference resolver (<=2 links must succeed, >=4 or a cycle must fail, exactly 3 is set-valued); non-trivial = history with a record of a sub-name stored under an enclosing token and at least one of {resolve through 1-2 links, limit or duplicate refusal, register refused by conflicting records, deletion of existing records}",
 		"all record operations are made by the owner of the token (authorisation is C11)", "setRecord onto a value present at another index and suffix-colliding record names are don't-care", "resolve through a dangling CNAME is don't-care")
 	runRapid(t, col, func(rt *rapid.T, h *ev.History) {
 		w := newNnsWorld(1, h)
@@ -408,7 +408,32 @@ func TestC12Stateful(t *testing.T) {
 		steps := rapid.IntRange(2, 30).Draw(rt, "steps")
 		for s := 0; s < steps; s++ {
 			delta := int64(1)
-			switch rapid.SampledFrom([]string{"add", "add", "add", "add", "set", "delete", "register", "fill", "expire", "chain"}).Draw(rt, "kind") {
+			switch rapid.SampledFrom([]string{"add", "add", "add", "add", "set", "delete", "register", "fill", "expire", "chain", "reregister-over-records"}).Draw(rt, "kind") {
+			case "reregister-over-records":
+				// a short-lived name expires, a record of one of its sub-names is added meanwhile (it lands
+				// under the enclosing live name), then the name is registered again: the conflict rule
+				// does not depend on whether the name was registered before
+				sub := rapid.SampledFrom([]string{"s.a.com", "x.a.com"}).Draw(rt, "subName")
+				child := map[string]string{"s.a.com": "z.s.a.com", "x.a.com": "y.x.a.com"}[sub]
+				now := int64(r.c.Now())
+				if nm, ok := r.m.names[sub]; !ok || nm.exp <= now {
+					r.register(sub, 1, rapid.SampledFrom([]int64{2, 1000}).Draw(rt, "shortLife"))
+				}
+				now = int64(r.c.Now())
+				if nm, ok := r.m.names[sub]; ok && nm.exp > now && nm.exp-now < 2_000_000 {
+					d := nm.exp - now + int64(rapid.SampledFrom([]int{0, 1}).Draw(rt, "offset"))
+					if d < 1 {
+						d = 1
+					}
+					r.c.AddBlock(uint64(d))
+					h.Op("time jumps by %d ms past the expiration of %s", d, sub)
+					h.Mark("expiry-jump")
+				}
+				r.addRecord(child, recTXT, fmt.Sprintf("late-%d", s), 1)
+				if nm, ok := r.m.names[sub]; ok && nm.exp <= int64(r.c.Now())+1 {
+					h.Mark("re-registration-of-expired-name-with-sub-name-records-in-parent")
+				}
+				r.register(sub, 1, rapid.SampledFrom([]int64{1000, hundredYearsSec}).Draw(rt, "life2"))
 			case "add":
 				typ := rapid.SampledFrom([]int64{recA, recAAAA, recCNAME, recCNAME, recTXT, recTXT, recSOA}).Draw(rt, "type")
 				d := "x"
